@@ -39,6 +39,11 @@ Advance(t) ==
                /\ idx' = [idx EXCEPT ![t] = @ + 1]
           ELSE UNCHANGED idx
 
+\* the requests went onto the wire in the order the service saw them: checked as the wire grows (prunes the search early)
+WirePrefix ==
+  /\ Len(wire) <= Len(Rec[run].wire)
+  /\ \A i \in 1..Len(wire) : wire[i].c = Rec[run].wire[i].c /\ wire[i].mode = Rec[run].wire[i].mode
+
 TStep(t) ==
   /\ run <= Len(Rec) /\ t \in 1..NThreads /\ Pending(t)
   /\ IF tpc[t] = <<"idle">>
@@ -48,6 +53,7 @@ TStep(t) ==
      ELSE RecvRead(t) \/ RecvReturn(t)
   /\ Advance(t)
   /\ UNCHANGED run
+  /\ WirePrefix'
 
 WireOk == [i \in 1..Len(wire) |-> <<wire[i].c, wire[i].mode>>] = [i \in 1..Len(Rec[run].wire) |-> <<Rec[run].wire[i].c, Rec[run].wire[i].mode>>]
 
@@ -66,6 +72,11 @@ TNextRun ==
 TraceInit == CInit /\ run = 1 /\ idx = [t \in Threads |-> 1]
 TraceNext == TNextRun \/ \E t \in Threads : TStep(t)
 TraceSpec == TraceInit /\ [][TraceNext]_tvars
+
+\* hist and delivered only record the past: two candidate linearisations that agree on everything else have the same future.
+\* (a misdelivery changes the view, so the state that contains it is never merged away before the invariant sees it)
+TView == <<free, readerGone, obj, pipe, wire, tpc, oscript, run, idx,
+           {i \in 1..Len(delivered) : delivered[i].to # delivered[i].tag} # {}>>
 
 \* properties on every state of every candidate linearisation
 TraceInv == OneOwner /\ ReplyToRequester /\ SendOnce
